@@ -169,4 +169,76 @@ def Pools.has (ps : Pools) : PoolClass → Bool
   | .ipip => ps.ipip
   | .noEncap => ps.noEncap
 
+/-! ## dynamic part: the route managers' per-destination bookkeeping (felix/dataplane/linux/route_mgr.go)
+
+Felix's dataplane hands every `RouteUpdate` to all three managers; `routeManager.OnUpdate` of the
+manager for pool type `ty` first forgets the destination (`m.deleteRoute(msg.Dst)`), then stores
+the message again iff it is of its own pool type and qualifies (remote block / tunnel / borrowed
+/ local block).  So per destination the LAST message wins, and a message of another pool type
+removes the destination. -/
+
+structure RMsg where
+  dst : Nat
+  poolType : PoolClass
+  qualifies : Bool := true
+deriving Repr, DecidableEq
+
+/-- `routeManager.OnUpdate(*proto.RouteUpdate)` on the set of destinations the manager programs. -/
+def rmUpdate (ty : PoolClass) (prog : List Nat) (m : RMsg) : List Nat :=
+  let rest := prog.filter (fun d => d != m.dst)
+  if m.poolType = ty ∧ m.qualifies = true then m.dst :: rest else rest
+
+def rmRun (ty : PoolClass) (st : List Nat) (hist : List RMsg) : List Nat :=
+  hist.foldl (rmUpdate ty) st
+
+/-- The last message for destination `d` in a history (`acc` = last one seen so far). -/
+def lastFor (d : Nat) : Option RMsg → List RMsg → Option RMsg
+  | acc, [] => acc
+  | acc, m :: t => lastFor d (if m.dst = d then some m else acc) t
+
+/-- Pool `p` has a remote block (destination `2p`) and a local block (destination `2p+1`). -/
+def poolMsgs (p : Nat) (c : PoolClass) : List RMsg := [⟨2 * p, c, true⟩, ⟨2 * p + 1, c, true⟩]
+
+def Pools.ofClasses (cs : List PoolClass) : Pools :=
+  ⟨cs.contains .ipip, cs.contains .vxlan, cs.contains .noEncap⟩
+
+/-- State of a running Felix: pool classes, the environment its managers were started with, and
+what each manager programs. -/
+structure Dyn where
+  classes : List PoolClass
+  env : FelixEnv
+  progIPIP : List Nat
+  progVXLAN : List Nat
+  progNoEncap : List Nat
+
+/-- Feed messages to the three managers; a manager that is not started (or, for IPIP, does not hand
+routes to its route manager) ignores them. -/
+def Dyn.feed (G : FelixGuards) (s : Dyn) (ms : List RMsg) : Dyn :=
+  { s with
+    progIPIP := if felixDataplanePrograms G s.env .ipip then rmRun .ipip s.progIPIP ms else s.progIPIP,
+    progVXLAN := if felixDataplanePrograms G s.env .vxlan then rmRun .vxlan s.progVXLAN ms else s.progVXLAN,
+    progNoEncap := if felixDataplanePrograms G s.env .noEncap then rmRun .noEncap s.progNoEncap ms else s.progNoEncap }
+
+def allPoolMsgs (cs : List PoolClass) : List RMsg :=
+  cs.zipIdx.flatMap (fun x => poolMsgs x.2 x.1)
+
+/-- Felix (re)start with the given pools. -/
+def Dyn.start (T : FelixTable) (G : FelixGuards) (v : Str) (cs : List PoolClass) : Dyn :=
+  let e := felixEnv T v (Pools.ofClasses cs) false false false false
+  Dyn.feed G ⟨cs, e, [], [], []⟩ (allPoolMsgs cs)
+
+def encapFlags (e : FelixEnv) : Bool × Bool × Bool := (e.ipipEnabled, e.vxlanEnabled, e.noEncapNeeded)
+
+/-- Pool `p` changes class.  If the encapsulation flags change Felix restarts (fresh managers);
+otherwise the resolver re-sends the pool's blocks with the new pool type.  Returns (state, restarted). -/
+def Dyn.setClass (T : FelixTable) (G : FelixGuards) (v : Str) (s : Dyn) (p : Nat) (c : PoolClass) : Dyn × Bool :=
+  let cs := s.classes.set p c
+  let e := felixEnv T v (Pools.ofClasses cs) false false false false
+  if encapFlags e ≠ encapFlags s.env then (Dyn.start T G v cs, true)
+  else (Dyn.feed G { s with classes := cs } (poolMsgs p c), false)
+
+/-- Does some Felix manager program destination `d`. -/
+def Dyn.programs (s : Dyn) (d : Nat) : Bool :=
+  s.progIPIP.contains d || s.progVXLAN.contains d || s.progNoEncap.contains d
+
 end CalicoVerif.C28
